@@ -55,6 +55,7 @@ package helpers
 //@   ensures [C18:exit] exitCode >= 0 ==> exitCode == 2
 
 //@ func WriteString(file *os.File, content string)
+//@   verify [C12]
 //@   requires exitCode < 0
 //@   requires [C18:fresh-file] fsContent == "" && fOffset == 0 && !fAppend && fWr && file != nil
 //@   ensures [C18:written] exitCode < 0 ==> fsContent == content
